@@ -14,6 +14,7 @@ python3 tools/rs2lean/wiring.py "${VERIF_REPO:-/repo}" lean/TrippyVerif/Gen || t
 python3 tools/rs2lean/cksumtab.py "${VERIF_REPO:-/repo}" lean/TrippyVerif/Gen || true
 python3 tools/rs2lean/itemtables.py "${VERIF_REPO:-/repo}" lean/TrippyVerif/Gen || true
 python3 tools/rs2lean/tostab.py "${VERIF_REPO:-/repo}" lean/TrippyVerif/Gen || true
+python3 tools/rs2lean/layoutidx.py "${VERIF_REPO:-/repo}" lean/TrippyVerif/Gen || true
 python3 tools/rs2lean/privacy.py "${VERIF_REPO:-/repo}" lean/TrippyVerif/Gen || true
 python3 tools/rs2lean/dispatchcmp.py "${VERIF_REPO:-/repo}" lean/TrippyVerif/Gen || true
 python3 tools/rs2lean/hookfwd.py "${VERIF_REPO:-/repo}" lean/TrippyVerif/Gen || true
